@@ -62,7 +62,8 @@ def cbox_eq(got, b):
 
 def correspond(ctx):
     rng = ctx.rng
-    names = ['utils_quadraticRoots', 'Quad__findDRoots', 'Quad_findExtremes', 'Cubic__findDRoots', 'Cubic_findExtremes_False', 'BBox_includes']
+    names = ['utils_quadraticRoots', 'Quad__findDRoots', 'Quad_findExtremes', 'Cubic__findDRoots', 'Cubic_findExtremes_False', 'BBox_includes',
+             'BBox_extend_Point', 'BBox_extend_BBox', 'Line_bounds', 'Quad_bounds', 'Cubic_bounds']     # the last five: regenerated twins of the hand model (Proofs/Bridge.v)
     res = kernels.cross_check('C02', names, ctx.n(40, 600), rng)
     cases, meta = [], []
     for _ in range(ctx.n(250, 4000)):
